@@ -145,7 +145,7 @@ def main():
     sel = sys.argv[1:]
     extra = []
     if sel and sel[0] == "--patch":
-        extra = [("patch " + os.path.basename(f), "@patch", f, None) for f in sel[1:]]
+        extra = [("patch " + os.path.join(os.path.basename(os.path.dirname(f)), os.path.basename(f)), "@patch", f, None) for f in sel[1:]]
         sel = ["\0"]
     edits = [e for e in EDITS + patch_edits() if not sel or any(s in e[0] for s in sel)] + extra
     with ThreadPoolExecutor(max_workers=7) as ex:
